@@ -83,6 +83,14 @@ Theorem C13_every_history_strongly_connected : forall evs,
   (forall a, 0 < a < length nt -> n_boots (get nt a) <> []) -> strongly_connected nt.
 Proof. intros evs H nt Hb. apply hub_strongly_connected; [exact (hub_history evs _ hub_start H)|exact Hb]. Qed.
 
+(* its hypotheses are met: two servers and a client (joined through the second node), a lookup by the third node *)
+Example C13_strongly_connected_nonvacuous :
+  let evs := [EJoin true [0]; EJoin true [0]; EJoin false [1]; ELookup 2 true] in
+  hist_ok (join [] true []) evs /\
+  strongly_connected (fold_left nstep evs (join [] true [])) /\
+  responds (fold_left nstep evs (join [] true [])) 2 = true.
+Proof. exact strongly_connected_nonvacuous. Qed.
+
 (* with an unreachable bootstrap list the node reports not bootstrapped (termination is C06's matter) *)
 Theorem C13_dead_bootstrap_reports_failure : forall nt server boots,
   boots <> [] -> (forall x, In x boots -> x < length nt /\ responds nt x = false) ->
@@ -105,4 +113,5 @@ Print Assumptions C13_lookup_queries_every_server.
 Print Assumptions C13_dead_bootstrap_reports_failure.
 Print Assumptions C13_strongly_connected_lookup_queries_every_server.
 Print Assumptions C13_every_history_strongly_connected.
+Print Assumptions C13_strongly_connected_nonvacuous.
 Print Assumptions C13_nonvacuous.
